@@ -18,7 +18,7 @@ import (
 // start and end time of every call are recorded.
 type verifListScript struct {
 	mu      sync.Mutex
-	pattern []int // 0 success, 1 transport error, 2 status 500, 3 malformed JSON, 4 status 404, 5/6/7 status 500/503/401 with an empty body, 8 success with an empty body, 9/10 status 200 whose body breaks off after 0 / 3 bytes, 11-15 status 204 / 202 [] / 304 / 302 / 201 [] (anything but 200 is a failed poll)
+	pattern []int // 0 success, 1 transport error, 2 status 500, 3 malformed JSON, 4 status 404, 5/6/7 status 500/503/401 with an empty body, 8 success with an empty body, 9/10 status 200 whose body breaks off after 0 / 3 bytes, 11-15 status 204 / 202 [] / 304 / 302 / 201 [] (anything but 200 is a failed poll), 16-18 status 503 / 429 / 503 with a Retry-After field
 	starts  []time.Time
 	ends    []time.Time
 	cancel  context.CancelFunc
@@ -85,6 +85,19 @@ func (s *verifListScript) RoundTrip(r *http.Request) (*http.Response, error) {
 		return mk(302, ""), nil // (no Location: the client hands the response over as it is)
 	case 15:
 		return mk(201, "[]"), nil
+	case 16:
+		// failing answers that carry advice about when to come back: the schedule is the agent's own
+		r := mk(503, "busy")
+		r.Header.Set("Retry-After", "2")
+		return r, nil
+	case 17:
+		r := mk(429, "slow down")
+		r.Header.Set("Retry-After", "1")
+		return r, nil
+	case 18:
+		r := mk(503, "")
+		r.Header.Set("Retry-After", "Wed, 21 Oct 2037 07:28:00 GMT")
+		return r, nil
 	}
 	return mk(200, "[]"), nil
 }
@@ -126,6 +139,7 @@ func TestVerifC08Loop(t *testing.T) {
 	patterns = append(patterns, []int{2, 8, 1, 1, 8, 8, 7, 7, 7, 7})
 	patterns = append(patterns, []int{9, 9, 9, 9, 10, 10, 9, 0, 10, 9, 9, 0})
 	patterns = append(patterns, []int{11, 11, 11, 12, 13, 14, 15, 0, 11, 12, 2, 13, 0})
+	patterns = append(patterns, []int{16, 17, 18, 16, 0, 17, 16, 2, 0})
 	nrand := 10
 	if verifThorough() {
 		nrand = 60
